@@ -771,6 +771,17 @@ func (ec *evalCtx) evalCompositeLit(x *ast.CompositeLit) Value {
 		return sliceLit(vals)
 	case *types.Map:
 		mv := ec.e().emptyMap(ec.st, u)
+		if _, isFn := u.Elem().Underlying().(*types.Signature); isFn {
+			for _, el := range x.Elts {
+				if kv, ok := el.(*ast.KeyValueExpr); ok {
+					if id, ok := ast.Unparen(kv.Value).(*ast.Ident); ok {
+						if f, ok := ec.info.Uses[id].(*types.Func); ok {
+							mv.Cands = append(mv.Cands, f)
+						}
+					}
+				}
+			}
+		}
 		for _, el := range x.Elts {
 			kv := el.(*ast.KeyValueExpr)
 			k := keyTerm(ec.eval(kv.Key))
